@@ -1,6 +1,7 @@
-From PV.Model Require Import Machine Mapping Views Headers Wrap WrapDirs Json WrapJson.
+From PV.Model Require Import Machine Mapping Views Headers Wrap WrapDirs Json WrapJson WrapJsonRes.
+From PV.Model Require Resources.
 From PV.Model Require Exports Imports Dirs.
-From PV.Spec Require Import HeaderSpec WrapSpec.
+From PV.Spec Require Import HeaderSpec WrapSpec WrapResSpec.
 Require Import ExtrOcamlBasic.
 Extraction Language OCaml.
 Extraction "../ocaml/gen/wrap_model.ml"
@@ -20,4 +21,8 @@ Extraction "../ocaml/gen/wrap_model.ml"
   op_debug op_debug_dirs wrap_debug_iter op_tls op_load_config op_security op_exception
   trimn sec_name_bytes
   json_of_image wrap_json wrap_json_text print_json parse_json well_formed json_get jfield jindex jkeys utf8_valid
-  json_text_ok drop_member k_resources.
+  json_text_ok drop_member k_resources
+  (* third round: the `resources` member *)
+  json_of_image_full wrap_json_full json_resources json_resources_member acc_resources jwalk JRES_DEPTH json_text_full_ok
+  Resources.root Resources.fsck_budget Resources.entries Resources.e_name Resources.e_entry Resources.rsrc_type Resources.decode_utf16
+  jentries jdepth.
